@@ -11,6 +11,9 @@ N, P_ = E.n, E.p
 M256 = 2 ** 256
 h = E.h64
 JOBS = int(os.environ.get("VERIF_JOBS", "16"))
+# the SM2_ENC_CTX pre-compute path exists only when the library is compiled with this macro, which no
+# cmake option defines: registered here as a local variant (thorough tier)
+core.VARIANTS.setdefault("encpre", (core.SAN_FLAGS + " -DENABLE_SM2_ENC_PRE_COMPUTE=1", []))
 
 
 def ent_hex(ks):
@@ -105,6 +108,49 @@ class Gen:
         self.enc("estream", small[1], [b"", b""], [2], "estream:total=0:empty-chunks")
         self.enc("estream", d, r.split(r.bytes(77), 4), [1 + self.rnd(N - 1)], "estream:k=rand")
 
+    # ---------------------------------------------------------------- pre-computed nonces
+    def gen_precompute(self, pre_variant=False):
+        """sm2_encrypt_pre_compute (Montgomery's trick over 8 points) + sm2_do_encrypt_ex with EVERY slot"""
+        r = self.r
+        small = lambda cnt: [2 + r.below(5000) for _ in range(cnt)]
+        big = lambda: 1 + self.rnd(N - 1)
+        batches = [("random", [big() for _ in range(8)] if not pre_variant else small(8)),
+                   ("boundary-nonces", [1, N - 1, N - 70] + small(2) + [N - 71, big(), 2]),
+                   ("boundary-at-ends", [N - 70] + small(6) + [N - 1]),
+                   ("small", small(8)),
+                   ("rejected-draws", small(3) + [N, 0, M256 - 1] + small(5)),
+                   ("entropy:7-nonces", small(7))]
+        for name, ks in batches:
+            en = ent_hex(ks)
+            self.add(line="encpre %s" % en, expr="c02_encpre %s" % q(en), cell="encpre:%s" % name)
+        for i, (name, ks) in enumerate(batches[1:5]):
+            d = self.keys[1 + i % 3][1]; P = E.pt_hex(self.pub[d]); en = ent_hex(ks)
+            m = r.bytes([1, 32, 33, 255][i])
+            self.add(line="encpreex %s %s %s" % (P, core.hexs(m), en), expr="c02_encpreex %s %s %s" % (q(P), q(core.hexs(m)), q(en)),
+                     cell="encpreex:%s" % name, kind="encpreex", d=d, m=m)
+        d = self.keys[4][1]; P = E.pt_hex(self.pub[d]); ks = small(6) + [big(), big()]; en = ent_hex(ks); m = r.bytes(40)
+        self.add(line="encpreex %s %s %s" % (P, core.hexs(m), en), expr="c02_encpreex %s %s %s" % (q(P), q(core.hexs(m)), q(en)),
+                 cell="encpreex:d=rand", kind="encpreex", d=d, m=m)
+        # sm2_do_encrypt_ex alone: length limits, and a slot used as given
+        d = self.keys[1][1]; P = E.pt_hex(self.pub[d]); k = 3; C1 = E.mul(k, E.G)
+        for L, cell in ((0, "encex:len=0"), (1, "encex:len=1"), (255, "encex:len=255"), (256, "encex:len=256")):
+            m = r.bytes(L)
+            self.add(line="encex %s %s %s %s %s" % (P, core.hexs(m), h(k), h(C1[0]), h(C1[1])),
+                     expr="c02_encex %s %s %s %s %s" % (q(P), q(core.hexs(m)), q(h(k)), q(h(C1[0])), q(h(C1[1]))),
+                     cell=cell, kind="encex" if 1 <= L <= 255 else None, d=d, m=m)
+        # one SM2_ENC_CTX over several messages (in the default build every finish is an sm2_encrypt)
+        rounds = [r.split(r.bytes(r.range(1, 60)), 2) for _ in range(10)]
+        ks = small(20)
+        rl = ";".join(chunks_line(c) for c in rounds); en = ent_hex(ks)
+        self.add(line="ectxr %s %s %s" % (P, rl, en),
+                 expr="%s %s %s %s" % ("c02_ectxr_pre" if pre_variant else "c02_ectxr", q(P), glist([chunks_g(c) for c in rounds]), q(en)),
+                 cell="ectxr:10-messages", kind="ectxr", d=d, rounds=rounds)
+        rounds = [[r.bytes(5)], [b""], [r.bytes(5)]]
+        rl = ";".join(chunks_line(c) for c in rounds)
+        self.add(line="ectxr %s %s %s" % (P, rl, en),
+                 expr="%s %s %s %s" % ("c02_ectxr_pre" if pre_variant else "c02_ectxr", q(P), glist([chunks_g(c) for c in rounds]), q(en)),
+                 cell="ectxr:empty-message")
+
     # ---------------------------------------------------------------- ECDH
     def ecdh(self, d, peer, cell, expect=None, model=True):
         self.add(line="ecdh %s %s" % (h(d), core.hexs(peer)),
@@ -189,6 +235,19 @@ def phase2(g, first, impl, model):
     malformed_base = {}
     for c, a, b in zip(first, impl, model):
         kind = c.get("kind")
+        if kind in ("encpreex", "ectxr", "encex"):
+            # every slot / every message of the context must decrypt (library and model)
+            for side, out in (("model", b), ("impl", a)):
+                if out is None or out.startswith(("ERR", "FAULT", "MODEL-")) or (side == "impl" and a == b):
+                    continue
+                cts = out.split(" ")[0].split(",")
+                for i, ct in enumerate(cts):
+                    exp = core.hexs(c["m"]) if kind != "ectxr" else core.hexs(b"".join(c["rounds"][i]))
+                    if ct in ("RETRY", "ERR"):
+                        g.ctx.violation("%s:slot-failed" % c["cell"], "slot %d of `%s` gave %s" % (i, c["line"][:120], ct), {"kind": "failing-input", "op": c["line"], side: out}, True)
+                        continue
+                    g.dec(c["d"], bytes.fromhex(ct), "dec:%s-ciphertext:%s:slot" % (side, c["cell"]), expect=exp)
+            continue
         if kind not in ("enc", "encfix", "estream", "doenc"):
             continue
         d, m = c["d"], c["m"]
@@ -338,14 +397,25 @@ def run(ctx):
             core.harness_build_failed(ctx, log)
             continue
         g = Gen(ctx)
-        g.gen_enc(); g.gen_ecdh()
+        g.gen_enc(); g.gen_ecdh(); g.gen_precompute()
         first = g.cases
         impl, model = ecdiff.run(ctx, "C02", first, exe, variant=v, model_shards=JOBS, tag="p1")
         ecdh_symmetry(ctx, g, first, impl)
         second = phase2(g, first, impl, model)
         ecdiff.run(ctx, "C02", second, exe, variant=v, model_shards=JOBS, tag="p2")
-        if v != "asan":
-            pass
+    if ctx.tier != "quick":
+        # library compiled with -DENABLE_SM2_ENC_PRE_COMPUTE=1: SM2_ENC_CTX takes its nonces from the
+        # 8 pre-computed slots (slot 7 first, refill after slot 0)
+        exe, log = core.build_harness("C02", "encpre")
+        if exe is None:
+            core.harness_build_failed(ctx, log)
+        else:
+            g = Gen(ctx)
+            g.gen_precompute(pre_variant=True)
+            first = g.cases
+            impl, model = ecdiff.run(ctx, "C02", first, exe, variant="encpre", model_shards=JOBS, tag="p1pre")
+            second = phase2(g, first, impl, model)
+            ecdiff.run(ctx, "C02", second, exe, variant="encpre", model_shards=JOBS, tag="p2pre")
     return finish(ctx)
 
 
@@ -360,7 +430,8 @@ def finish(ctx):
         "round trip dec(enc) and ECDH symmetry are proved under explicit premises ([a]([b]G) = [(ab) mod n]G, multiples of G are finite curve points)",
         "the all-zero-KDF retry of sm2_do_encrypt cannot be driven by any feasible input (needs an SM3 preimage); it is modelled and proved but not exercised",
         "'every modified ciphertext is rejected' beyond the decision rule (C3 compare, C1 validation, DER canonicity) is cryptographic; the run flips all bits of one ciphertext and samples the others (test)",
-        "sm2_do_encrypt_ex / sm2_encrypt_pre_compute are dead code in this build (ENABLE_SM2_ENC_PRE_COMPUTE is never defined) and are not modelled",
+        "sm2_encrypt_pre_compute / sm2_fast_sign_pre_compute: the Jacobian Z coordinates are not observable; the model runs Montgomery's trick as coded on stand-in Z values and batch_inv_correct / *_pre_compute_eq_partial prove the result does not depend on them (premise: the one shared inversion is correct)",
+        "the SM2_ENC_CTX pre-compute path needs -DENABLE_SM2_ENC_PRE_COMPUTE=1, which no cmake option sets; it is built and compared as local variant `encpre` in the thorough tier only",
     ]
     return ctx.finish(level="proof",
                       rule="phase 1: every plaintext length 1..255 (small nonces/keys), random keys and nonces, nonce boundaries {1,n-1,n-71,n-70,n-69}, rejected draws, fixed point sizes 68/69/70, streaming buffers at 0/255/256, ECDH both directions + compressed + every invalid peer family; phase 2: the model's ciphertexts decrypted by the library (and differing library ciphertexts by the model), C1 families (off-curve, >=p, zero, negated), C3/C2 flips, all single-bit flips of one DER ciphertext and samples of three more, DER mutations, decrypt buffers at 44/45/366/367; a cell = (op, family, boundary class, ok|ERR)",
